@@ -9,3 +9,142 @@ Print Assumptions C14_fault_handling_order.
 Theorem C14_commit_entry_order : commit_orders_ok = true.
 Proof. exact SrcFacts_proofs.commit_orders_ok_true. Qed.
 Print Assumptions C14_commit_entry_order.
+
+(* ------------------------------------------------------------------------------------------ *)
+(* The fault model of commit / rollback (Fault.v: the `?`-structured control flow of Sync::sync,   *)
+(* Store::commit, the commit entry points and Nomt::rollback under arbitrary failure oracles,      *)
+(* one oracle per operation of a history; linked to the disk model of SyncProto.v).               *)
+From Coq Require Import List.
+From Nomt Require Import Base SyncProto SyncProto_proofs Fault Fault_proofs.
+From Nomt.Gen Require Import SrcFacts.
+
+(* regenerated from the source on every run: the five fallible calls of Sync::sync, in this order,
+   are each followed by `?` and there is no other `?` in the body; inside write_wal, truncate_wal,
+   write_ht, Meta::write, seglog append and the segment writer no write / resize / fsync result is
+   dropped *)
+Theorem C14_sync_results_checked : sync_results_checked = true.
+Proof. exact SrcFacts_proofs.sync_results_checked_true. Qed.
+Print Assumptions C14_sync_results_checked.
+
+(* the model examines exactly the calls the translator lists, in the order of the source, and the
+   control flow driven by the generated list IS the model's *)
+Theorem C14_model_matches_source : model_fallible_calls = sync_fallible_calls.
+Proof. exact Fault_proofs.sync_model_matches_source. Qed.
+Print Assumptions C14_model_matches_source.
+
+Theorem C14_sync_run_from_source : forall fails, sync_run_src fails = sync_run fails.
+Proof. exact Fault_proofs.sync_run_src_eq. Qed.
+Print Assumptions C14_sync_run_from_source.
+
+(* an error is returned iff the handle was poisoned or an EXECUTED call reported a failure: no
+   failure is swallowed, no error is made up; the failing call is the last one executed *)
+Theorem C14_commit_err_iff : forall delta fails h,
+  result_of (commit_run delta fails h) = RErr <->
+  poisoned h = true \/
+  exists s, In s (execd (commit_run delta fails h)) /\ fallible s = true /\ fails s = true.
+Proof. exact Fault_proofs.commit_err_iff. Qed.
+Print Assumptions C14_commit_err_iff.
+
+Theorem C14_rollback_err_iff : forall fails h,
+  result_of (rollback_run fails h) = RErr <->
+  poisoned h = true \/
+  exists s, In s (execd (rollback_run fails h)) /\ fallible s = true /\ fails s = true.
+Proof. exact Fault_proofs.rollback_err_iff. Qed.
+Print Assumptions C14_rollback_err_iff.
+
+(* the same per I/O operation (write, resize, fsync, bucket allocation) behind the steps *)
+Theorem C14_commit_err_iff_io : forall delta iof h,
+  result_of (commit_run delta (step_fails iof) h) = RErr <->
+  poisoned h = true \/
+  exists s o, In s (execd (commit_run delta (step_fails iof) h)) /\ In o (ios_of_step s) /\ iof o = true.
+Proof. exact Fault_proofs.commit_err_iff_io. Qed.
+Print Assumptions C14_commit_err_iff_io.
+
+Theorem C14_failing_step_is_last : forall delta fails h pfx s sfx,
+  execd (commit_run delta fails h) = pfx ++ s :: sfx ->
+  fallible s = true -> fails s = true -> sfx = [].
+Proof. exact Fault_proofs.failing_step_is_last. Qed.
+Print Assumptions C14_failing_step_is_last.
+
+(* an error poisons the handle; a poisoned handle refuses every commit and rollback without
+   executing a single call, forever *)
+Theorem C14_err_poisons : forall o fails h,
+  result_of (op_run o fails h) = RErr -> poisoned (after (op_run o fails h)) = true.
+Proof. exact Fault_proofs.op_err_poisons. Qed.
+Print Assumptions C14_err_poisons.
+
+Theorem C14_poisoned_refuses : forall o fails h,
+  poisoned h = true -> op_run o fails h = refuse.
+Proof. exact Fault_proofs.poisoned_refuses. Qed.
+Print Assumptions C14_poisoned_refuses.
+
+Theorem C14_poisoned_forever : forall ops h,
+  poisoned h = true ->
+  poisoned (snd (run_ops ops h)) = true /\
+  Forall (fun x => x = (RErr, [])) (fst (run_ops ops h)).
+Proof. exact Fault_proofs.poisoned_forever. Qed.
+Print Assumptions C14_poisoned_forever.
+
+(* a commit that returns Ok executed everything and the manifest step completed *)
+Theorem C14_ok_commit_new : forall delta fails h,
+  result_of (commit_run delta fails h) = ROk ->
+  poisoned h = false /\
+  execd (commit_run delta fails h) = (if delta then [SDeltaAppend] else []) ++ sync_steps /\
+  (forall s, In s (execd (commit_run delta fails h)) -> fallible s = true -> fails s = false) /\
+  committed (after (commit_run delta fails h)) = true /\
+  poisoned (after (commit_run delta fails h)) = false.
+Proof. exact Fault_proofs.ok_commit_new. Qed.
+Print Assumptions C14_ok_commit_new.
+
+(* a commit fails at some call: the disk stands at a cut inside that call (and stays there: the
+   handle does no further I/O); every crash image of it reopens as exactly the old or the new
+   state - old if the failure came before Meta::write, new if it came after *)
+Theorem C14_failed_commit_atomic : forall I d0 delta fails h n img,
+  inst_ok I -> start_ok I d0 -> wal_safe I d0 -> discipline I d0 (full_trace I) = true ->
+  poisoned h = false ->
+  result_of (commit_run delta fails h) = RErr ->
+  cut_ok (events_of_step I) (execd (commit_run delta fails h)) n ->
+  crash_image (drun d0 (firstn n (full_trace I))) img ->
+  (recover I img = ROld \/ recover I img = RNew) /\
+  (step_idx (failed_step (execd (commit_run delta fails h))) < step_idx SMetaWrite ->
+     recover I img = ROld) /\
+  (step_idx SMetaWrite < step_idx (failed_step (execd (commit_run delta fails h))) ->
+     recover I img = RNew).
+Proof. exact Fault_proofs.failed_commit_atomic. Qed.
+Print Assumptions C14_failed_commit_atomic.
+
+(* the same for ANY attribution of the events of a disciplined trace to the calls during which
+   they happened (real traces interleave the background write-outs) *)
+Theorem C14_failed_commit_atomic_gen : forall I d0 seg,
+  inst_ok I -> start_ok I d0 -> wal_safe I d0 -> seg_ok seg ->
+  discipline I d0 (trace_of seg sync_steps) = true ->
+  forall delta fails h n img,
+  poisoned h = false ->
+  result_of (commit_run delta fails h) = RErr ->
+  cut_ok seg (execd (commit_run delta fails h)) n ->
+  crash_image (drun d0 (firstn n (trace_of seg sync_steps))) img ->
+  (recover I img = ROld \/ recover I img = RNew) /\
+  (step_idx (failed_step (execd (commit_run delta fails h))) < step_idx SMetaWrite ->
+     recover I img = ROld) /\
+  (step_idx SMetaWrite < step_idx (failed_step (execd (commit_run delta fails h))) ->
+     recover I img = RNew).
+Proof. exact Fault_proofs.failed_commit_atomic_gen. Qed.
+Print Assumptions C14_failed_commit_atomic_gen.
+
+(* a commit that returns Ok has produced the whole trace and the new state is durable *)
+Theorem C14_ok_commit_durable : forall I d0 delta fails h img,
+  inst_ok I -> start_ok I d0 -> wal_safe I d0 -> discipline I d0 (full_trace I) = true ->
+  result_of (commit_run delta fails h) = ROk ->
+  trace_of (events_of_step I) (execd (commit_run delta fails h)) = full_trace I /\
+  (crash_image (drun d0 (full_trace I)) img -> recover I img = RNew).
+Proof. exact Fault_proofs.ok_commit_new_durable. Qed.
+Print Assumptions C14_ok_commit_durable.
+
+(* every one of the five checks is needed: with any single `?` dropped the first statement is false *)
+Theorem C14_every_check_needed : forall s0, In s0 sync_steps -> fallible s0 = true ->
+  ~ (forall fails,
+       fst (run_steps (fun s => negb (step_eqb s s0)) fails sync_steps) = RErr <->
+       exists s, In s (snd (run_steps (fun s => negb (step_eqb s s0)) fails sync_steps)) /\
+                 fallible s = true /\ fails s = true).
+Proof. exact Fault_proofs.every_check_needed. Qed.
+Print Assumptions C14_every_check_needed.
